@@ -32,6 +32,9 @@ func c07Spec() map[string]spec.V {
 		"s":   {K: "slice", L: []spec.V{{K: "int", S: "1"}, {K: "string", S: "two"}}},
 		"d":   {K: "dec", S: "12.50"},
 		"rec": {K: "func", F: &spec.Fn{Name: "rec", Params: []string{"any"}, Variadic: true, Ret: "count"}},
+		// the same recorder behind a signature with a fixed first parameter: recf(a, [b, c]...) spreads a list
+		// that is evaluated after a
+		"recf": {K: "func", F: &spec.Fn{Name: "rec", Params: []string{"any", "any"}, Variadic: true, Ret: "count"}},
 	}
 }
 
@@ -49,7 +52,7 @@ func notLocal(k string) bool { return !strings.HasPrefix(k, "$") }
 func checkProgs(c progCase) (msg string, unspec bool) {
 	rec := &spec.Recorder{}
 	data := spec.BuildMap(c07Spec(), rec)
-	refs := map[string]interface{}{"m": data["m"], "m.in": data["m"].(map[string]interface{})["in"], "s": data["s"], "d": data["d"], "this": data, "rec": data["rec"]}
+	refs := map[string]interface{}{"m": data["m"], "m.in": data["m"].(map[string]interface{})["in"], "s": data["s"], "d": data["d"], "this": data, "rec": data["rec"], "recf": data["recf"]}
 	env := &miniEnv{store: map[string]mv{}, data: c07ModelData()}
 	r := formula.NewRunner()
 	if c.NoMap {
@@ -198,6 +201,27 @@ func genProg(t *rapid.T, depth int, wantInt bool) *ref.Node {
 		for i := 0; i < n; i++ {
 			call.Kids = append(call.Kids, sub(false))
 		}
+		if n == 1 && rapid.IntRange(0, 1).Draw(t, "spreadf") == 0 {
+			// recf(a, ..., [b, c]...): the list is the last argument and is evaluated last
+			call.Kids[0] = idn("recf")
+			arr := &ref.Node{Kind: "arr"}
+			for i := rapid.IntRange(0, 2).Draw(t, "nspreadf"); i > 0; i-- {
+				arr.Kids = append(arr.Kids, sub(false))
+			}
+			call.Kids = append(call.Kids, arr)
+			call.Spread = true
+			return call
+		}
+		if n == 0 && rapid.IntRange(0, 3).Draw(t, "spread") == 0 {
+			// rec([b, c]...): rec is purely variadic, so the spread list is its only argument (an argument before
+			// the list is only accepted for functions with fixed leading parameters - C11's order check covers those)
+			arr := &ref.Node{Kind: "arr"}
+			for i := rapid.IntRange(0, 2).Draw(t, "nspread"); i > 0; i-- {
+				arr.Kids = append(arr.Kids, sub(false))
+			}
+			call.Kids = append(call.Kids, arr)
+			call.Spread = true
+		}
 		return call
 	case 7: // conditional with a literal or comparison condition
 		var cond *ref.Node
@@ -263,7 +287,7 @@ func progNontrivial(c progCase) bool {
 
 // TestC07Model: histories of 1-4 evaluations against the store-passing model.
 func TestC07Model(t *testing.T) {
-	run := h.Begin("C07", "model", "rapid: histories of 1-4 programs evaluated by one runner; programs mix '$n = e', reads, forbidden targets (x = e, $a.k = e, ($a) = e, 1 = e, rec() = e, newname = e), ',', arrays, rec(...) calls, ?: with literal or comparison conditions, parentheses and integer '+' over locals $a $b $c and data names x y m s d; oracle: a store-passing reference evaluator (result value, final value of every $ key in the caller's map, ordered rec trace = left-to-right evaluation, error iff a forbidden assignment is evaluated) and a deep snapshot of the caller's data taken before each evaluation (no non-$ entry added/removed/changed, no reachable map/slice/number mutated); non-trivial: an assignment that is read afterwards, a re-assignment or a forbidden target; distinct by history text")
+	run := h.Begin("C07", "model", "rapid: histories of 1-4 programs evaluated by one runner; programs mix '$n = e', reads, forbidden targets (x = e, $a.k = e, ($a) = e, 1 = e, rec() = e, newname = e), ',', arrays, rec(...) calls (also rec([..]...) and recf(a, [..]...) with a fixed first parameter), ?: with literal or comparison conditions, parentheses and integer '+' over locals $a $b $c and data names x y m s d; oracle: a store-passing reference evaluator (result value, final value of every $ key in the caller's map, ordered rec trace = left-to-right evaluation, error iff a forbidden assignment is evaluated) and a deep snapshot of the caller's data taken before each evaluation (no non-$ entry added/removed/changed, no reachable map/slice/number mutated); non-trivial: an assignment that is read afterwards, a re-assignment or a forbidden target; distinct by history text")
 	defer run.End(t)
 	h.RapidSetup(h.N(8000, 2000000), "c07model")
 	rapid.Check(t, func(rt *rapid.T) {
@@ -460,7 +484,7 @@ func checkProgsNoMap(c progCase, r *formula.Runner, env *miniEnv) (string, bool)
 		}
 		usesRec := false
 		prog.Walk(func(n *ref.Node) {
-			if n.Kind == "id" && n.Val == "rec" {
+			if n.Kind == "id" && (n.Val == "rec" || n.Val == "recf") {
 				usesRec = true
 			}
 		})
